@@ -19,6 +19,16 @@ class SimKill(BaseException):
     """Asynchronous abort injected by the simulator (not an Exception on purpose)."""
 
 
+class RunTooBig(BaseException):
+    """A program of the history turned out to be a memory / time bomb (a string of millions of characters - strings are
+    not capped by any property): the run ends here, unjudged from this point. Never a verdict about the library."""
+
+
+class RunTimeout(BaseException):
+    """Raised by the harness (SIGALRM) when one run exceeds its soft wall cap. Never a verdict about the library: every
+    handler that classifies outcomes lets it pass (reported as HARNESS-ERROR with a traceback)."""
+
+
 # --------------------------------------------------------------------------- S5 entropy
 class SeamRandom(_random.Random):
     """Real stdlib algorithms on top of a scripted bit source."""
